@@ -602,6 +602,3 @@ Definition believed (w : world) (loc s : str) (nf : list str) : bool := snd (try
 Definition tickS : nat -> nat := S.
 
 Definition run_proc_S := run_proc_full tickS.
-Definition load_S := load tickS.
-Definition delete_cache_S := delete_cache.
-Definition newer_than_S := newer_than.
